@@ -17,18 +17,19 @@ def run_chunk(args):
     ns = net.NetSim(nodes, seed=seed, jitter=jitter, lazy_drain=True)
     name = {nd["addr"]: nd["name"] for nd in nodes}
     js = []
-    for ji, (s, lvl, t, n) in enumerate(jobs):
-        if ji % 4 == 0:
+    for ji, job in enumerate(jobs):
+        (s, lvl, t, n), hold = job[:4], len(job) > 4
+        if ji % 4 == 0 and not hold:
             # ordinary unicast traffic in between: routed ack-type writes (their NETWORK_ACK wait must not leave a node
             # acknowledging multicasts afterwards)
             for (a, b) in ((0o1, 0o2), (0o11, 0o3), (0o21, 0o12)):
                 if opts.get(a, {}).get("allow_multicast") is not False:
                     js.append(net.job_write(name[a], b, 65, b"unicast", chk=["C07"], budget_ms=6000))
         msg = bytes(((i * 5 + n + s) & 0xFF) for i in range(n))
-        js.append(net.job_multicast(name[s], msg, t, lvl, chk=["C14", "C07"]))
+        js.append(net.job_multicast(name[s], msg, t, lvl, chk=["C14", "C07"], hold=hold))
     tr = ns.run(js)
     tr["meta"] = dict(addrs=[oct(a) for a in addrs], opts={oct(a): o for a, o in opts.items()}, seed=seed, jitter=jitter,
-                      jobs=[[oct(s), lvl, t, n] for (s, lvl, t, n) in jobs])
+                      jobs=[[oct(j[0])] + list(j[1:]) for j in jobs])
     return tr
 
 
@@ -64,6 +65,16 @@ def build(chk):
         per = 8
         for k in range(0, len(jobs), per):
             chunks.append((BASE, opts, jobs[k:k + per], chk.seed * 100 + vi * 1000 + k, rng.choice([3000, 40000])))
+        # bursts: a node multicasts again (same type, another message) before the receivers' applications have read the
+        # first one - both are distinct messages and both must arrive
+        burst = []
+        for s in (senders if not quick else rng.sample(senders, 3)):
+            if opts.get(s, {}).get("allow_multicast") is False:
+                continue
+            lvl, t = rng.choice([None, 1, 2]), rng.choice([0, 65, 127])
+            n1, n2 = rng.sample([1, 5, 24, 25, 30], 2)
+            burst += [(s, lvl, t, n1), (s, lvl, t, n2, "hold")]
+        chunks.append((BASE, opts, burst, chk.seed * 100 + vi * 1000 + 999, 3000))
     return chunks
 
 
@@ -99,6 +110,8 @@ def run(chk):
             cls = "master" if c["src"] == 0 else "0o1" if c["src"] == 1 else "level%d" % (len(oct(c["src"])) - 2)
             import re
             key = "%s:%s->L%s:%s" % (v["clause"], cls, c["level"] if c["level"] >= 0 else "default", re.sub(r"\d+", "N", v["detail"]))
+            if c.get("hold"):
+                key += ":second-of-a-burst"
             if v["clause"] == "C14.ExactlyLevel" and "did not receive" in v["detail"] and len(c["msg"]) > 48:
                 # cause class (key only): every level-L node that missed the message relays, i.e. was deaf while re-broadcasting
                 L = c["lvl"] if c["level"] < 0 else min(4, c["level"])
@@ -107,7 +120,7 @@ def run(chk):
                 if missing and all(nd["relay"] for nd in missing):
                     key = "C14.ExactlyLevel:fragmented>=3:relaying-receiver-deaf-while-re-broadcasting"
             wit = dict(kind="mcast", meta={k: t["meta"][k] for k in ("addrs", "opts", "seed", "jitter")},
-                       job=[oct(c["src"]), c["level"], c["type"], len(c["msg"])], ret=w["ret"], deq_nodes=[d["n"] for d in w["deqs"]])
+                       job=[oct(c["src"]), c["level"], c["type"], len(c["msg"])] + (["hold"] if c.get("hold") else []), ret=w["ret"], deq_nodes=[d["n"] for d in w["deqs"]])
             found.setdefault(key, []).append((wit, v))
     for key, items in found.items():
         wit, v = items[0]
